@@ -70,7 +70,7 @@ PLAN = {
         "lex_long": ("DataLex", dict(MaxLen=5, MaxCols=3, Profile=3, EmitMod=3), None),
         "flt_ex": ("Filter", dict(MaxRows=1, MaxFilters=2, Profile=1, EmitMod=40), None),
         "flt_sim": ("Filter", dict(MaxRows=3, MaxFilters=3, Profile=2, EmitMod=1), 25),
-        "wr_ex": ("DataWrite", dict(MaxRows=2, MaxCols=2, Profile=1, EmitMod=6), None),
+        "wr_ex": ("DataWrite", dict(MaxRows=2, MaxCols=2, Profile=1, EmitMod=40), None),
     },
     "thorough": {
         "lex_ex": ("DataLex", dict(MaxLen=5, MaxCols=3, Profile=2, EmitMod=60), None),
@@ -78,7 +78,7 @@ PLAN = {
         "lex_long": ("DataLex", dict(MaxLen=7, MaxCols=3, Profile=3, EmitMod=40), None),
         "flt_ex": ("Filter", dict(MaxRows=2, MaxFilters=2, Profile=1, EmitMod=150), None),
         "flt_sim": ("Filter", dict(MaxRows=3, MaxFilters=3, Profile=2, EmitMod=1), 500),
-        "wr_ex": ("DataWrite", dict(MaxRows=2, MaxCols=2, Profile=2, EmitMod=3), None),
+        "wr_ex": ("DataWrite", dict(MaxRows=2, MaxCols=2, Profile=2, EmitMod=150), None),
     },
 }
 ACTIONS = {"DataLex": ["Feed", "Finish", "Fit"], "Filter": ["AddRow", "AddFilter", "Start", "ApplyFilter", "Convert"],
@@ -339,6 +339,21 @@ def _base_model():
     return _BASE["m"]
 
 
+NAMED = {"0.1+0.2": 0.1 + 0.2, "nextafter(1)": 1.0000000000000002, "2**53+2": float(2**53 + 2), "min subnormal": 5e-324,
+         "-max double": -1.7976931348623157e308, "-0.0": -0.0, "pi*1e-5": 3.141592653589793 * 1e-5}
+
+
+def _double(cell):
+    """rendering of a DataWrite.tla cell: the double nearest to n/d * 10^e (Fraction -> float is correctly rounded)"""
+    from fractions import Fraction
+
+    if cell["k"] == "nan":
+        return float("nan")
+    if cell["k"] == "named":
+        return NAMED[cell["name"]]
+    return float(Fraction(cell["n"], cell["d"]) * Fraction(10) ** cell["e"])
+
+
 def write_check(arg):
     case, var = arg
     import numpy as np
@@ -350,7 +365,7 @@ def write_check(arg):
     data = {"ID": np.array([1 + i // 2 for i in range(nr)], dtype="int32"), "TIME": np.array([float(i % 2) for i in range(nr)])}
     names = ["DV", "X1", "X2", "X3"]
     for j in range(case["ncols"]):
-        data[names[j]] = np.array([float("nan") if r[j]["k"] == "nan" else float(f"{r[j]['m']}e{r[j]['e']}") for r in rows], dtype=np.float64)
+        data[names[j]] = np.array([_double(r[j]) for r in rows], dtype=np.float64)
     df = pd.DataFrame(data)
     rec = {"part": "write", "via": var["via"], "frame": df.to_numpy().tolist(), "columns": list(df.columns)}
     dd = core.scratch("c13w")
@@ -362,6 +377,8 @@ def write_check(arg):
         back = read_model(dd / "out.mod").dataset
         if not back.equals(df):
             rec["outcome"] = "not_equal"
+            rec["differs"] = sorted({repr(float(a)) for a, b in zip(df.to_numpy().ravel(), back.to_numpy().ravel())
+                                     if not (a == b or (a != a and b != b))}) if back.shape == df.shape else "shape"
             rec["csv"] = (dd / "out.csv").read_text() if (dd / "out.csv").exists() else None
             return ("violation", rec, f"read back {back.to_numpy().tolist()} {[str(t) for t in back.dtypes]} != written {df.to_numpy().tolist()} {[str(t) for t in df.dtypes]}")
         if not m.dataset.equals(df):
@@ -390,7 +407,7 @@ def run(tier, seed, v, cases):
     import pharmpy.model.external.nonmem.dataset  # noqa: F401
 
     rng = random.Random(seed)
-    budget = {"quick": dict(lex_raw=5000, lex_model=260, flt_raw=1500, flt_model=140, write=120),
+    budget = {"quick": dict(lex_raw=5000, lex_model=260, flt_raw=1500, flt_model=140, write=160),
               "thorough": dict(lex_raw=120000, lex_model=6000, flt_raw=30000, flt_model=3000, write=2500)}[tier]
     scale = float(os.environ.get("VERIF_BUDGET_SCALE", "1"))   # only for trying the pipeline on a busy machine
     budget = {k: max(1, int(b * scale)) for k, b in budget.items()}
